@@ -76,6 +76,7 @@ enum Ev : uint32_t
   kShutdownCall,  // a = shutdown id, b = kind (0 explicit, 1 destructor, 2 provider)
   kShutdownRet,   // a = shutdown id, b = result
   kOverlap,       // exporter saw in-flight > 1 at Export entry; a = in-flight count
+  kCollectCancelled,  // the periodic reader reported that a collection exceeded the export timeout
 };
 
 static std::string g_prop = "C01";
@@ -96,10 +97,13 @@ static void viol(const char *prop, const std::string &assertion, const std::stri
 class CountingLogHandler : public sdkcommon::internal_log::LogHandler
 {
 public:
-  void Handle(sdkcommon::internal_log::LogLevel level, const char *, int, const char *,
+  void Handle(sdkcommon::internal_log::LogLevel level, const char *, int, const char *msg,
               const sdkcommon::AttributeMap &) noexcept override
   {
     counts[static_cast<int>(level) & 7].fetch_add(1, std::memory_order_relaxed);
+    // the periodic reader's own diagnostic is an observation: this collection cycle was cancelled
+    if (level == sdkcommon::internal_log::LogLevel::Error && msg && strstr(msg, "and timed out"))
+      EventLog::get().add(kCollectCancelled);
   }
   vf::raw_atomic<uint64_t> counts[8] = {};
 };
@@ -821,6 +825,7 @@ static void check_history(const Config &c, const char *subject_name, const std::
   }
 
   // ---- C01: exactly once, order, no loss with room --------------------------------------------
+  std::vector<uint64_t> lost_with_room;   // return stamps of records that were lost although the queue had room
   std::map<uint64_t, uint64_t> last_seq;  // producer -> last delivered sequence + 1
   for (auto &b : batches)
   {
@@ -884,6 +889,8 @@ static void check_history(const Config &c, const char *subject_name, const std::
       uint64_t C = static_cast<uint64_t>(std::lower_bound(consumed_enters.begin(), consumed_enters.end(), rc.call) -
                                          consumed_enters.begin());
       ++st.drops;
+      if (A - C < c.queue)
+        lost_with_room.push_back(rc.ret);
       if (A - C < c.queue)
         viol("C01", "lost-with-room", subj,
              "record " + key_of(kv.first.first, kv.first.second) + " never exported although at most " +
@@ -964,6 +971,15 @@ static void check_history(const Config &c, const char *subject_name, const std::
     if (concurrent_shutdown)
       R.count("flush_overlapping_shutdown");
     std::string cls = subj + ":" + (concurrent_shutdown ? "racing-shutdown" : (active ? "producers-active" : "quiescent"));
+    // a record produced before the flush that was never exported at all although the queue had room
+    uint64_t never = 0;
+    for (uint64_t t : lost_with_room)
+      if (t < f.call)
+        ++never;
+    if (never)
+      viol("C02", "flush-complete", cls + ":never-exported",
+           "ForceFlush returned true at t=" + std::to_string(f.ret) + " but " + std::to_string(never) +
+               " record(s) produced before it began were never exported although the queue had room; " + c.describe());
     if (nmissing)
       viol("C02", "flush-complete", cls,
            "ForceFlush(timeout class " + std::to_string(f.arg) + ") returned true at t=" + std::to_string(f.ret) +
@@ -1038,6 +1054,10 @@ static void check_history(const Config &c, const char *subject_name, const std::
         if (nmiss++ == 0)
           ex = key_of(kv.first.first, kv.first.second);
     }
+    if (!lost_with_room.empty())
+      viol("C02", "shutdown-exports-all", subj + ":never-exported",
+           std::to_string(lost_with_room.size()) +
+               " record(s) produced before Shutdown were never exported although the queue had room; " + c.describe());
     if (nmiss)
       viol("C02", "shutdown-exports-all", subj,
            std::to_string(nmiss) + " record(s) produced before Shutdown were exported only after it returned, e.g. " + ex +
@@ -1429,7 +1449,7 @@ static void run_periodic_history(uint64_t seed, bool thorough)
   auto &R = vf::report();
   Rng r(seed ^ 0x5eed);
   PeriodicCfg c;
-  static const int intervals[] = {6, 20, 50};
+  static const int intervals[] = {20, 40, 80};
   c.interval_ms  = r.pick(intervals);
   c.timeout_ms   = std::max(2, c.interval_ms / 2);
   c.adders       = static_cast<int>(r.range(1, 4));
@@ -1552,10 +1572,14 @@ static void run_periodic_history(uint64_t seed, bool thorough)
   std::vector<std::pair<uint64_t, uint64_t>> exp_flush;
   std::unordered_map<uint32_t, uint64_t> open_flush;
   uint64_t overlaps = 0, sig = 1469598103934665603ull;
+  std::vector<uint64_t> cancelled_at;
   for (auto &e : ev)
   {
     switch (e.type)
     {
+      case kCollectCancelled:
+        cancelled_at.push_back(e.t);
+        break;
       case kProdRet:
         add_rets[e.a].push_back(e.t);
         break;
@@ -1602,7 +1626,6 @@ static void run_periodic_history(uint64_t seed, bool thorough)
     if (e.type != kProdCall && e.type != kProdRet && e.type != kExportItem)
       sig = vf::mix(sig, e.type);
   }
-  std::string slowcls = c.cb_sleep_ms > c.timeout_ms ? "collect-exceeds-export-timeout" : "collect-in-time";
   if (overlaps)
     viol("C03", "one-export-at-a-time", "periodic",
          std::to_string(overlaps) + " Export entries while another Export was running; " + c.describe());
@@ -1629,8 +1652,18 @@ static void run_periodic_history(uint64_t seed, bool thorough)
     if (f.call > min_ret)
       continue;  // after shutdown: not judged
     bool racing = f.ret > first_shutdown_call;
-    std::string cls = "periodic:" + (racing ? std::string("racing-shutdown") : slowcls);
-    R.count("periodic_true_flushes_" + slowcls);
+    // Input class of the flush: did the SDK itself report that a collection cycle running during this flush
+    // exceeded export_timeout and was cancelled?  (Taken from the reader's own diagnostic, not from the
+    // configured callback latency alone: on a loaded machine any collection may exceed a few milliseconds.)
+    bool cancelled_during = false;
+    for (uint64_t t : cancelled_at)
+      if (t > f.call && t < f.ret)
+        cancelled_during = true;
+    std::string fcls = cancelled_during ? "collect-exceeds-export-timeout" : "collect-in-time";
+    if (cancelled_during && c.cb_sleep_ms <= c.timeout_ms)
+      R.count("periodic_cycles_cancelled_without_scripted_latency");
+    std::string cls = "periodic:" + (racing ? std::string("racing-shutdown") : fcls);
+    R.count("periodic_true_flushes_" + fcls);
     uint64_t missing = 0;
     std::string ex;
     for (auto &kv : add_rets)
